@@ -51,11 +51,13 @@ class Conc(object):
     def __init__(self, rng, cf, nid):
         self.rng = rng
         self.cf = cf
+        self.width = False
         fam = cf["fam"]
         self.short = word(rng, HOST1, 2, 2) + word(rng, HOSTN, 1, 5)
-        nlab = rng.randint(2, 3)
+        # the system's FQDN has 2, 3 or 4 labels (host.lan, host.site.corp, host.a.b.org)
+        nlab = rng.randint(1, 3)
         labels = [word(rng, HOST1, 2, 2) + word(rng, HOSTN, 0, 4) for _ in range(nlab - 1)] + \
-                 [pick(rng, ["jv", "wk", "qz", "vkw"])]
+                 [pick(rng, ["jv", "wk", "qz", "vkw", "jklan", "qvdomain", "wzk8"])]
         if fam == "collide":
             labels = ["example", "com"]
         self.domain = ".".join(labels)
@@ -140,7 +142,17 @@ class Conc(object):
                 else:
                     self.pat[i] = ("[[:upper:]]T" + core[2:] + "$|" + core + "[^0-9]", core + pick(rng, UP))
             else:
-                p = core + (pick(rng, [" ", "=", "/", "."]) + word(rng, UP, 1, 3) if rng.random() < 0.3 else "")
+                # plain patterns are literal text: also with characters that mean something in a regular expression
+                r = rng.random()
+                if r < 0.45:
+                    p = core
+                elif r < 0.6:
+                    p = core + pick(rng, [" ", "=", "/", "."]) + word(rng, UP, 1, 3)
+                else:
+                    x = word(rng, UP, 1, 3)
+                    p = pick(rng, ["$" + core, core + "+" + x + "@", core + "[12]-" + x, "(" + core + ")", core + ".*" + x,
+                                   core + "?" + x, "^" + core, core + "|" + x, core + "\\d", core + "{2}", "*" + core,
+                                   core + "$", "[" + core, core + "\\"])
                 self.pat[i] = (p, word(rng, UP, 0, 2) + p + word(rng, UP + DIG, 0, 2))
         self.table = {}
         for i, v in self.ip.items():
@@ -220,20 +232,26 @@ class Conc(object):
         if cls == "edge":
             return ""
         if cls == "space":
-            return pick(rng, SPACE)
+            return " " if self.width else pick(rng, SPACE)
         if cls == "punct":
             if side == "l":
                 return pick(rng, PUNCT)
             return pick(rng, PUNCT_PW_R if k == "pw" else PUNCT_R)
-        if cls == "word":
+        if cls == "alpha":
+            return pick(rng, UP + LOW + "_")
+        if cls == "digit":
             if k == "mac":
-                return pick(rng, "0123456789abcdefABCDEF" + UP + "_")
-            return pick(rng, UP + LOW + DIG + "_")
-        if cls == "same":
-            c = pick(rng, [":", "-", "."])
-            if c == ".":
-                return (pick(rng, DIG[1:]) + ".") if side == "l" else ("." + pick(rng, DIG[1:]))
-            return c
+                return pick(rng, "0123456789abcdefABCDEF")
+            return pick(rng, DIG)
+        if cls == "colon":
+            return ":"
+        if cls == "dash":
+            return "-"
+        if cls == "dotnum":
+            # '.443' / '.51234' (tcpdump, BSD netstat: address.port), '.7'; on the left '7.' / '443.'
+            n = pick(rng, [pick(rng, DIG[1:]), "22", "80", "443", "8080", "51234", str(rng.randint(256, 65535)),
+                           str(rng.randint(1, 255))])
+            return (n + ".") if side == "l" else ("." + n)
         raise ValueError(cls)
 
 
@@ -247,6 +265,7 @@ class Line(object):
         self.toks = [dict(t) for t in toks]
         self.texts, self.sens = [], []
         self.mark = False
+        self.width = conc.width
         if not toks:
             self.text = ""
             return
@@ -259,9 +278,11 @@ class Line(object):
         rch = [conc.delim(t["r"], "r", t["k"]) for t in toks]
         # interior "edge" is white space (the gap filler provides it)
         pre, post = lch[0], rch[-1]
+        # fixed-width mode: netstat-like columns, room after every token for a longer substitute
+        pad = " " * rng.randint(24, 30) if self.width else " "   # (a repeated address re-aligns the first column once per occurrence)
         if want_mark:
-            if toks[-1]["r"] != "edge":
-                post = rch[-1] + (" " if not rch[-1].endswith(" ") else "") + "ZL%dZ" % src
+            if toks[-1]["r"] != "edge" or self.width:
+                post = rch[-1] + (pad if not rch[-1].endswith(" ") or self.width else "") + "ZL%dZ" % src
                 self.mark = True
             elif toks[0]["l"] != "edge":
                 pre = "ZL%dZ " % src + lch[0]
@@ -270,7 +291,7 @@ class Line(object):
         for g in range(n - 1):
             a, b = toks[g], toks[g + 1]
             glue = (a["r"] in ("space", "punct") and b["l"] in ("space", "punct", "edge") and
-                    a["k"] != "pw" and b["k"] != "pw" and rng.random() < 0.5)
+                    a["k"] != "pw" and b["k"] != "pw" and not self.width and rng.random() < 0.5)
             if glue:
                 # the two tokens are separated by their delimiter characters only
                 sp = rch[g] + lch[g + 1]
@@ -278,7 +299,7 @@ class Line(object):
                     sp += " "
                 seps.append(sp)
             else:
-                seps.append(rch[g] + " ZQ%dZ " % g + lch[g + 1])
+                seps.append(rch[g] + pad + "ZQ%dZ " % g + lch[g + 1])
         self.pre, self.post, self.seps = pre, post, seps
         s = pre
         for g in range(n):
@@ -290,28 +311,52 @@ class Line(object):
     def renderings(self, out):
         """cut the output line into one rendering per token"""
         n = len(self.toks)
-        rx = "^" + re.escape(self.pre)
+
+        def lit(x):
+            if not self.width:
+                return re.escape(x)
+            # the fixed-width mode pads / removes blanks after an address: compare modulo runs of blanks
+            return " +".join(re.escape(y) for y in re.split(" +", x))
+        rx = "^" + lit(self.pre)
         for g in range(n):
             rx += "(.*?)"
             if g < n - 1:
-                rx += re.escape(self.seps[g])
-        rx += re.escape(self.post) + "$"
+                rx += lit(self.seps[g])
+        rx += lit(self.post) + "$"
         m = re.match(rx, out, re.S)
         if m:
-            return list(m.groups()), True
-        # some delimiter was swallowed: cut at the gap markers, strip what is recognisable
+            return list(m.groups()), [True] * n
+        # some delimiter was swallowed: cut at the gap markers, then cut every region on its own
         regions = GAP_MARK.split(out)
-        cuts = [i for i, s in enumerate(self.seps) if GAP_MARK.search(s)]
+        cuts = [i for i, sp in enumerate(self.seps) if GAP_MARK.search(sp)]
         if len(regions) != 2 * len(cuts) + 1:
-            return [out] * n, False
+            return [out] * n, [False] * n
         regions = regions[0::2]
-        res = []
+        res, exact = [], []
         bounds = [-1] + cuts + [n - 1]
         for r, reg in enumerate(regions):
             lo, hi = bounds[r] + 1, bounds[r + 1]
+            if r == 0:
+                left = self.pre
+            else:
+                sp = self.seps[lo - 1]
+                left = sp[GAP_MARK.search(sp).end():]
+            if r == len(regions) - 1:
+                right = self.post
+            else:
+                sp = self.seps[hi]
+                right = sp[:GAP_MARK.search(sp).start()]
+            rx = "^" + lit(left)
             for g in range(lo, hi + 1):
-                res.append(reg)
-        return res, False
+                rx += "(.*?)"
+                if g < hi:
+                    rx += lit(self.seps[g])
+            rx += lit(right) + "$"
+            m = re.match(rx, reg, re.S)
+            for g in range(lo, hi + 1):
+                res.append(m.group(g - lo + 1) if m else reg)
+                exact.append(bool(m))
+        return res, exact
 
 
 class Interner(object):
@@ -372,19 +417,25 @@ def run_spec(cleaner, spec, lines, path, tmp, tag):
     """-> (output lines or None when nothing was stored, stored, raised)"""
     texts = [l.text for l in lines]
     noobf = list(spec["noobf"])
+    width = bool(spec.get("width"))
+    # the only spec cleaned in fixed-width mode is the one whose path ends in netstat_-neopa (spec_factory.py:109)
+    name = "netstat_-neopa" if width else "spec"
     if path == "content":
-        out = cleaner.clean_content(list(texts), no_obfuscate=noobf, no_redact=spec["nored"])
+        out = cleaner.clean_content(list(texts), no_obfuscate=noobf, no_redact=spec["nored"], width=width)
         return out, len(out) > 0, False
     if path == "file":
-        p = os.path.join(tmp, "f-%s" % tag)
+        os.makedirs(os.path.join(tmp, "f-%s" % tag))
+        p = os.path.join(tmp, "f-%s" % tag, name)
         with open(p, "w") as f:
             f.write("".join(t + "\n" for t in texts))
         cleaner.clean_file(p, no_obfuscate=noobf, no_redact=spec["nored"])
         if not os.path.exists(p):
+            os.rmdir(os.path.dirname(p))
             return [], False, False
         with open(p) as f:
             out = f.read().split("\n")
         os.unlink(p)
+        os.rmdir(os.path.dirname(p))
         if out and out[-1] == "":
             out.pop()
         return out, True, False
@@ -395,15 +446,15 @@ def run_spec(cleaner, spec, lines, path, tmp, tag):
         ctx = HostContext(root=root)
         try:
             if path == "provider":
-                prov = DatasourceProvider(list(texts), "spec", root=root, ctx=ctx, cleaner=cleaner,
+                prov = DatasourceProvider(list(texts), "insights_commands/" + name, root=root, ctx=ctx, cleaner=cleaner,
                                           no_obfuscate=noobf, no_redact=spec["nored"])
             else:
                 class DS(object):
                     no_obfuscate = noobf
                     no_redact = spec["nored"]
-                with open(os.path.join(root, "src"), "w") as f:
+                with open(os.path.join(root, name), "w") as f:
                     f.write("".join(t + "\n" for t in texts))
-                prov = TextFileProvider("src", root=root, ds=DS(), ctx=ctx, cleaner=cleaner)
+                prov = TextFileProvider(name, root=root, ds=DS(), ctx=ctx, cleaner=cleaner)
             raised = False
             try:
                 prov.write(dst)
@@ -442,19 +493,20 @@ def classify(line, outline, subs, intern):
     obs = []
     if outline is None:
         return [{"st": "dropped", "v": 0} for _ in line.toks], True
-    rend, exact = line.renderings(outline)
+    rend, exacts = line.renderings(outline)
     for g, t in enumerate(line.toks):
         r = rend[g]
+        exact = exacts[g]
         if exact and r == line.texts[g] and r in subs:
             # left as it is, and it is a substitute the obfuscator issued (C08's exception clause)
-            obs.append({"st": "self", "v": intern(r)})
+            obs.append({"st": "self", "v": intern(line.texts[g])})
         elif exact and r in subs:
             obs.append({"st": "sub", "v": intern(r)})
         elif any(x in r for x in (line.sens[g] if isinstance(line.sens[g], tuple) else (line.sens[g],))):
-            obs.append({"st": "kept", "v": 0})
+            obs.append({"st": "kept", "v": intern(line.texts[g])})
         else:
             obs.append({"st": "sub" if r in subs else "other", "v": intern(r)})
-    return obs, exact
+    return obs, all(exacts)
 
 
 def abstract_maps(maps, conc, intern, alltext):
@@ -470,7 +522,7 @@ def abstract_maps(maps, conc, intern, alltext):
     return res
 
 
-def do_case(case, j, seed, path, tmp, facts, stats):
+def do_case(case, j, seed, path, tmp, facts, stats, prop="C08"):
     rng = random.Random("%d/%s/%d" % (seed, case["id"], j))
     cf = case["cf"]
     conc = Conc(rng, cf, universe(case))
@@ -481,6 +533,8 @@ def do_case(case, j, seed, path, tmp, facts, stats):
     for si, spec in enumerate(case["content"]):
         nunm = 0
         lines = []
+        spec["sp"] = dict(spec["sp"], width=bool(spec["sp"].get("width")))
+        conc.width = spec["sp"]["width"]
         for li, toks in enumerate(spec["lines"]):
             ln = Line(conc, toks, li + 1, True)
             if toks and not ln.mark:
@@ -526,7 +580,7 @@ def do_case(case, j, seed, path, tmp, facts, stats):
                           ("mac", "obfuscated_mac"), ("keyword", "obfuscated_keyword")):
             fmaps[name] = json.loads(fx["insights_client." + key])
         events.append({"ev": "report", "via": "facts", "maps": abstract_maps(fmaps, conc, intern, alltext)})
-    return {"id": "%s/%d/%s" % (case["id"], j, path), "mode": "lines", "cf": cf,
+    return {"id": "%s/%d/%s" % (case["id"], j, path), "mode": "lines", "prop": prop, "cf": cf,
             "special": [1] if cf["fam"] in ("collide", "suffix", "prefix") else [], "events": events,
             "concrete": {"fqdn": conc.fqdn, "lines": alltext.split("\n")[:8]}}
 
@@ -551,6 +605,7 @@ def do_run_case(case, seed, tmp, stats):
                     return parse_line
                 o.parse_line = mk(name, o.parse_line)
         for si, spec in enumerate(case["content"]):
+            conc.width = bool(spec["sp"].get("width"))
             lines = [Line(conc, toks, li + 1, True) for li, toks in enumerate(spec["lines"])]
             del order_log[:]
             tag = "%d-%d-%d" % (os.getpid(), stats["cleanings"], si)
@@ -587,7 +642,8 @@ def main():
         for ci, case in enumerate(inp["cases"]):
             for j in range(inp["nconc"]):
                 path = paths[(ci + j) % len(paths)]
-                traces.append(do_case(case, j, inp["seed"], path, tmp, inp.get("facts", False) and j == 0, stats))
+                traces.append(do_case(case, j, inp["seed"], path, tmp, inp.get("facts", False) and j == 0, stats,
+                                      inp.get("prop", "C08")))
         out = {"traces": traces, "stats": stats}
     else:
         runs = {}
